@@ -340,6 +340,12 @@ func (w *World) pickDest(t *rapid.T, height uint64, hasBindingIn bool, budget in
 	case "staking":
 		w.flag("staking-output")
 		period := consensus.MinFrozenPeriod + uint64(rapid.IntRange(0, 4).Draw(t, "period"))
+		if rapid.IntRange(0, 5).Draw(t, "longPeriod") == 0 {
+			// any period up to 2^32-2 is legal on chain (only the reward weight is capped at
+			// MASSIP0001MaxValidPeriod): such a deposit stays locked for the whole history
+			period = rapid.SampledFrom([]uint64{consensus.MASSIP0001MaxValidPeriod, consensus.MASSIP0001MaxValidPeriod + 1, consensus.MASSIP0001MaxValidPeriod + 5000, 1 << 24, 0xfffffffe}).Draw(t, "longPeriodValue")
+			w.flag("staking-period-beyond-the-reward-cap")
+		}
 		return sim.StakingScript(ownerHash(), period), int64(consensus.MinStakingValue), false
 	default: // binding
 		w.bindCounter++
